@@ -3,6 +3,7 @@ import HappyProofs.C16.StoreInv
 import HappyModel.C16.StoreSpec
 import HappyProofs.C16.StoreWB
 import HappyProofs.C16.SoftTtlInv
+import HappyProofs.C16.SoftSize
 import HappyProofs.C16.StoreSeq
 import HappyProofs.C16.OrderLaws
 import HappyProofs.C16.OrderLawsC
@@ -12,6 +13,7 @@ import HappyProofs.C16.PageProps
 import HappyProofs.C16.WPolProps
 import HappyProofs.C16.ClearFresh
 import HappyProofs.C16.RawMain
+import HappyProofs.C16.ORawF
 /-!
 # C16 — property theorems
 
@@ -340,6 +342,51 @@ theorem read_after_write_overlap_witness :
     judgeReads { cfg with rep := false } ops (obsRun { cfg with rep := false } (St.init (.lru {})) as)
       = some "store/read-after-write/stale/wt/after-put" := by decide
 
+/-- `read_after_write` with overlapping writes ordered (write-through): "that write's value or a later
+    one", where a write is later than another when it was issued after it **and** completed after it.
+    For every schedule in which no segment of an operation is attempted before its first one (as in
+    every observed run), the observed run of the repaired write-through store passes the Spec's
+    ordered read clause `judgeReadsOrd` — a get never returns the value of a write that a write
+    completed before the get was issued has superseded. -/
+def read_after_write_ordered_full : Prop :=
+  ∀ (cfg : Cfg), cfg.rep = true → cfg.wt = true → 1 ≤ cfg.cap →
+  ∀ (name : String) (arg : Nat) (p : Pol), Pol.ofName name arg = some p →
+  ∀ (ops : List (Nat × OpK)) (as : List Act), Schedule ops as → lateOk [] as = true →
+    judgeReadsOrd cfg ops (obsRun cfg (St.init p) as) = none
+
+/-- **ordered `read_after_write` for all interleavings** (repaired write-through store, every policy
+    and capacity).  Nothing is ever dirty in a write-through store, so the backing store holds the
+    value of the write that completed last, and a cache entry is the value of the write issued last —
+    or, after a miss fill, of the write that had completed last when nothing was in flight (the
+    per-key in-flight *count*: a fill while a second overlapping write is still on its way would
+    install a superseded value). -/
+theorem read_after_write_ordered_all_interleavings : read_after_write_ordered_full := by
+  intro cfg hrep hwt _ _ _ p _ ops as hs hlate
+  obtain ⟨hnd, htab, hstart, _⟩ := hs
+  rw [obsRun_eq]
+  refine oraw_judge cfg hrep hwt obsOf (fun _ _ _ => rfl) (fun _ _ _ => rfl) ops hnd p as ⟨hstart, ?_, ?_⟩ hlate
+  · intro i _ hi; cases hi
+  · intro i op now hm
+    obtain ⟨op', hop, hso⟩ := htab i op now hm
+    exact ⟨op', hop, sameOp_cases hso⟩
+
+/-- non-vacuity, and what the ordered clause adds: two overlapping puts of one key (put 1 issued and
+    completed after put 0), the key invalidated, a miss that reads the backing store between the two
+    applications, a get once both completed.  The repaired store does not fill (one write is still in
+    flight) and returns 2; the store without the in-flight guard (`current`) fills 1 and keeps serving
+    it — accepted by the regular-register clause (the puts overlap), rejected by the ordered one. -/
+theorem read_after_write_ordered_witness :
+    let cfg : Cfg := ⟨4, true, true, []⟩
+    let ops := [(0, OpK.put 0 1), (1, .put 0 2), (2, .inv 0), (3, .get 0), (4, .get 0)]
+    let as := [Act.start 0 (.put 0 1) 0, .start 1 (.put 0 2) 0, .resume 0 0, .start 2 (.inv 0) 0,
+               .start 3 (.get 0) 0, .resume 3 0, .resume 1 0, .start 4 (.get 0) 0, .resume 4 0]
+    lateOk [] as = true ∧
+    judgeReadsOrd cfg ops (obsRun cfg (St.init (.lru {})) as) = none ∧
+    (obsRun cfg (St.init (.lru {})) as).getLast?.map (·.res) = some (some (.val 2)) ∧
+    judgeReads { cfg with rep := false } ops (obsRun { cfg with rep := false } (St.init (.lru {})) as) = none ∧
+    judgeReadsOrd { cfg with rep := false } ops (obsRun { cfg with rep := false } (St.init (.lru {})) as)
+      = some "store/read-after-write/superseded/wt/value" := by decide
+
 /-- `read_after_write`, proved part: when operations do not overlap (each runs all its segments
     before the next starts — `execOp`), the repaired store with any policy, capacity ≥ 1 and either
     write mode is a map: every `get` returns the value of the latest `put` of its key, nothing after
@@ -399,5 +446,32 @@ theorem soft_ttl_expired_served_current :
 example :
     (tRun ⟨10, 20, none, true⟩ {} (softWitness ++ [.resume 4 37])).2 =
       [.done, .fetched 7, .done, .served 7 6 25, .done, .none] := by decide
+
+/-- `soft_ttl_size_le_capacity`: along every schedule of client-operation and background-refresh
+    segments (both variants, any TTLs, any clock readings) a `SoftTTLCache` with a finite capacity
+    (≥ 1, what the constructor enforces) holds at most that many entries — in particular when a
+    refresh completes after its key was evicted or invalidated. -/
+theorem soft_ttl_size_le_capacity (cfg : TCfg) (c : Nat) (hc : cfg.cap = some c) (h1 : 1 ≤ c) (as : List TAct) :
+    (tRun cfg {} as).1.cache.length ≤ c :=
+  (tRun_z cfg {} as zinv_init (fun _ _ _ => Nat.zero_le _)).2 c hc h1
+
+/-- `soft_ttl_lru_keys_eq_cache_keys`: along every schedule the LRU bookkeeping (`_access_order`)
+    tracks exactly the cached keys, each once — every entry can be chosen as a victim. -/
+theorem soft_ttl_lru_keys_eq_cache_keys (cfg : TCfg) (as : List TAct) :
+    (∀ x, x ∈ (tRun cfg {} as).1.order ↔ x ∈ akeys (tRun cfg {} as).1.cache) ∧
+      (tRun cfg {} as).1.order.Nodup ∧ (akeys (tRun cfg {} as).1.cache).Nodup :=
+  have r := (tRun_z cfg {} as zinv_init (fun _ _ _ => Nat.zero_le _)).1
+  ⟨r.same, r.ond, r.cnd⟩
+
+/-- non-vacuity: capacity 2, keys 0 and 1 cached; a stale hit on 0 starts a refresh (operation 1000);
+    while it reads the backing store two misses (2, 3) complete and evict 1 and then 0; the refresh
+    completes and re-inserts 0 through `_store`, which evicts 2: two entries, both tracked, 0 most recent -/
+example :
+    let cfg : TCfg := ⟨2000, 10000, some 2, true⟩
+    let s := (tRun cfg {} [.start 0 (.bput 0 7) 0, .start 1 (.bput 1 8) 0, .start 2 (.bput 2 9) 0, .start 3 (.bput 3 10) 0,
+      .start 4 (.get 0) 0, .resume 4 10, .start 5 (.get 1) 100, .resume 5 110,
+      .start 6 (.get 2) 2995, .start 7 (.get 3) 2996, .start 8 (.get 0) 3000, .start 1000 (.refresh 0) 3000,
+      .resume 8 3000, .resume 6 3005, .resume 7 3006, .resume 1000 3010]).1
+    akeys s.cache = [3, 0] ∧ s.order = [3, 0] ∧ s.refreshing = [] := by decide
 
 end HappyModel.C16
